@@ -18,6 +18,7 @@ const (
 	RLeadSep       // one leading ',' or ':' before the value is skipped
 	RSkip          // a value may be consumed the way go-json's skip scanners do (see skipScan)
 	RSkipJunk      // (stream) the skip scanner ignores bytes that cannot start a value
+	RStrAnyEscape  // (Compact/Indent) a backslash may be followed by any byte
 	RNulSkipped    // (stream) embedded NUL bytes are dropped when the reader can still be asked for data
 )
 
@@ -33,6 +34,7 @@ var RelaxNames = []struct {
 	{"str:raw-ctl", RStrRawCtl, "buf"},
 	{"nul-terminates", RNulEnds, "buf"},
 	{"skip:unvalidated", RSkip, "skip"},
+	{"compact:str-any-escape", RStrAnyEscape, "compact"},
 	{"stream:nul-skipped", RNulSkipped, "stream"},
 	{"stream:literal-prefix-at-EOF", RLitPrefixEOF, "stream"},
 	{"stream:literal-letters-unchecked", RLitNoCheck, "stream"},
@@ -191,6 +193,10 @@ func (r *rec) str() bool {
 			case '"', '\\', '/', 'b', 'f', 'n', 'r', 't':
 				r.i++
 			case 'u':
+				if r.rx&RStrAnyEscape != 0 {
+					r.i++
+					break
+				}
 				if r.i+4 >= len(r.b) {
 					return false
 				}
@@ -201,7 +207,10 @@ func (r *rec) str() bool {
 				}
 				r.i += 5
 			default:
-				return false
+				if r.rx&RStrAnyEscape == 0 || r.b[r.i] == 0 {
+					return false
+				}
+				r.i++
 			}
 		case c == 0:
 			return false
